@@ -61,8 +61,14 @@ class Conv:
             return "(QWaitPart %d%%nat)" % q["pid"]
         if k == "pay":
             expected = "None|None|None|None|None|None|None" if self.t.get("cfg", {}).get("xpay") else EXPECTED_OTHER   # the xpay shape carries no riskfactor
-            if q["other"] != expected or q["maxfee"] is None or q["maxdelay"] is None or q["retry"] is None or q["inv"] is None: return None
-            return "(QPay %s %s %s %d %d)" % (self.blob(q["inv"]), coq_opt(q["amount"], str), q["maxfee"], q["maxdelay"], q["retry"])
+            if q["other"] != expected or q["inv"] is None: return None
+            if strict and (q["maxfee"] is None or q["maxdelay"] is None or q["retry"] is None): return None
+            # lowering of a pay request that leaves a limit out (the unchanged plugin always passes all three): no limit at all is
+            # the conservative reading of "the node's default applies" - an unbounded fee budget / delay; retry_for defaults to 60 s
+            maxfee = q["maxfee"] if q["maxfee"] is not None else str(2**64 - 1)
+            maxdelay = q["maxdelay"] if q["maxdelay"] is not None else 65535
+            retry = q["retry"] if q["retry"] is not None else 60
+            return "(QPay %s %s %s %d %d)" % (self.blob(q["inv"]), coq_opt(q["amount"], str), maxfee, maxdelay, retry)
         return None
 
     def response(self, r):
